@@ -63,6 +63,22 @@ func newEnv(ps *probeState, config ...lisp.Config) *lisp.LEnv {
 				return lisp.Int(ps.booms)
 			}),
 		)
+		// the same panicking behaviour as a HOST MACRO and a HOST SPECIAL OPERATOR (each kind of host
+		// callable unwinds through its own call path)
+		env.AddMacros(true, elpsutil.Function("boom-macro", lisp.Formals(), func(env *lisp.LEnv, args *lisp.LVal) *lisp.LVal {
+			ps.booms++
+			if ps.panicAt > 0 && ps.booms == ps.panicAt {
+				panic("host macro panicked")
+			}
+			return lisp.Int(ps.booms)
+		}))
+		env.AddSpecialOps(true, elpsutil.Function("boom-op", lisp.Formals(), func(env *lisp.LEnv, args *lisp.LVal) *lisp.LVal {
+			ps.booms++
+			if ps.panicAt > 0 && ps.booms == ps.panicAt {
+				panic("host operator panicked")
+			}
+			return lisp.Int(ps.booms)
+		}))
 	}
 	return env
 }
